@@ -3,6 +3,7 @@ package checks
 import (
 	"encoding/json"
 	"fmt"
+	"os"
 	"path/filepath"
 	"sort"
 	"strings"
@@ -514,6 +515,10 @@ func exploreScenarioOn(env *core.Env, st *schedStats, check string, sc sched.Sce
 		if !env.TimeLeft() {
 			break
 		}
+		if os.Getenv("VERIF_UNBOUNDED_ONLY") != "" && len(sc.Procs) == 2 { // experiments: sleep-set mode alone
+			completed = maxBound
+			break
+		}
 		x := &sched.Explorer{Ctl: ctl, Scenario: sc, Bound: bound, Workers: nWorkers, Dirs: dirs, Deadline: env.Deadline}
 		x.Check = func(ex *sched.Exec) {
 			if bound > 0 && ex.Preempts < bound {
@@ -560,6 +565,45 @@ func exploreScenarioOn(env *core.Env, st *schedStats, check string, sc sched.Sce
 		}
 		completed = bound
 	}
+	// thorough tier, two processes: all interleavings modulo independence (sleep sets), no preemption bound
+	var unb map[string]interface{}
+	if (env.Thorough() || os.Getenv("VERIF_UNBOUNDED") != "") && len(sc.Procs) == 2 && env.TimeLeft() {
+		x := &sched.Explorer{Ctl: ctl, Scenario: sc, Workers: nWorkers, Dirs: dirs, Deadline: env.Deadline}
+		x.Check = func(ex *sched.Exec) {
+			wk := workerFor(env, ex)
+			sig, detail := judge(wk, ex)
+			releaseWorker(wk)
+			if sig == "" || env.ViolationSeen(sig) {
+				return
+			}
+			confirmMu <- struct{}{}
+			defer func() { <-confirmMu }()
+			if env.ViolationSeen(sig) {
+				return
+			}
+			for k := 0; k < 5; k++ {
+				re, err := ctl.Run(filepath.Join(env.Scratch, "schedconfirm"), sc, ex.Choices, ex.Steps)
+				if err != nil {
+					env.HarnessError("replay of a failing schedule diverged: %v", err)
+				}
+				wk := workerFor(env, re)
+				s2, _ := judge(wk, re)
+				releaseWorker(wk)
+				if s2 != sig {
+					env.Logf("UNCONFIRMED schedule (fails %q then %q): %s", sig, s2, ex.Schedule())
+					unconfirmed.Add(1)
+					return
+				}
+			}
+			env.Violation(sig, fmt.Sprintf("scenario %s; schedule: %s; %s", sc.Name, ex.Schedule(), detail), mkSchedReplay(check, sc, ex, detail))
+		}
+		x.ExploreUnbounded(30000)
+		if x.Err != nil {
+			env.HarnessError("scenario %s unbounded: %v", sc.Name, x.Err)
+		}
+		execs += x.Executions
+		unb = map[string]interface{}{"complete": x.Complete, "executions": x.Executions, "sleep_set_blocked_runs": x.Blocked}
+	}
 	st.mu.Lock()
 	st.Scenarios++
 	st.Executions += execs
@@ -569,7 +613,11 @@ func exploreScenarioOn(env *core.Env, st *schedStats, check string, sc sched.Sce
 	if completed < maxBound {
 		st.Exhaustive = false
 	}
-	st.PerScenario[sc.Name] = map[string]interface{}{"processes": len(sc.Procs), "points_default_schedule": len(a.Steps), "executions": execs, "bound_completed": completed}
+	per := map[string]interface{}{"processes": len(sc.Procs), "points_default_schedule": len(a.Steps), "executions": execs, "bound_completed": completed}
+	if unb != nil {
+		per["unbounded_sleep_sets"] = unb
+	}
+	st.PerScenario[sc.Name] = per
 	st.mu.Unlock()
 	atomic.AddInt64(&totalSchedExecs, execs)
 }
